@@ -51,17 +51,32 @@ impl Searcher {
             Searcher::Low(a) => with_aut!(a, a => a.try_find(&i)),
         }
     }
+    /// more items than any correct iterator can yield on this input: a
+    /// runaway iterator is cut off there (and recorded as "runaway")
+    pub fn item_limit(&self, i: &Input<'_>) -> usize {
+        let n = match self {
+            Searcher::Top(ac) => ac.patterns_len(),
+            Searcher::Low(a) => with_aut!(a, a => a.patterns_len()),
+        };
+        (i.haystack().len() + 2) * (n + 1) + 8
+    }
     pub fn try_iter(&self, i: Input<'_>) -> Result<Vec<Match>, MatchError> {
+        let lim = self.item_limit(&i);
         match self {
-            Searcher::Top(ac) => ac.try_find_iter(i).map(|it| it.collect()),
-            Searcher::Low(a) => with_aut!(a, a => a.try_find_iter(i).map(|it| it.collect())),
+            Searcher::Top(ac) => ac.try_find_iter(i).map(|it| it.take(lim + 1).collect()),
+            Searcher::Low(a) => {
+                with_aut!(a, a => a.try_find_iter(i).map(|it| it.take(lim + 1).collect()))
+            }
         }
     }
     pub fn try_overlapping_iter(&self, i: Input<'_>) -> Result<Vec<Match>, MatchError> {
+        let lim = self.item_limit(&i);
         match self {
-            Searcher::Top(ac) => ac.try_find_overlapping_iter(i).map(|it| it.collect()),
+            Searcher::Top(ac) => {
+                ac.try_find_overlapping_iter(i).map(|it| it.take(lim + 1).collect())
+            }
             Searcher::Low(a) => {
-                with_aut!(a, a => a.try_find_overlapping_iter(i).map(|it| it.collect()))
+                with_aut!(a, a => a.try_find_overlapping_iter(i).map(|it| it.take(lim + 1).collect()))
             }
         }
     }
@@ -83,9 +98,13 @@ impl Searcher {
     ) -> Result<Vec<u8>, MatchError> {
         let mut dst = vec![];
         let mut n = 0usize;
+        let cap = (hay.len() + 2) * 2 + 8;
         let f = |m: &Match, _b: &[u8], dst: &mut Vec<u8>| {
             dst.extend(&rep[m.pattern().as_usize()]);
             n += 1;
+            if n > cap {
+                panic!("runaway: the replacement closure was called more often than there are offsets");
+            }
             n != stop
         };
         match self {
@@ -104,9 +123,13 @@ impl Searcher {
     ) -> Result<String, MatchError> {
         let mut dst = String::new();
         let mut n = 0usize;
+        let cap = (hay.len() + 2) * 2 + 8;
         let f = |m: &Match, _b: &str, dst: &mut String| {
             dst.push_str(&rep[m.pattern().as_usize()]);
             n += 1;
+            if n > cap {
+                panic!("runaway: the replacement closure was called more often than there are offsets");
+            }
             n != stop
         };
         match self {
@@ -220,18 +243,26 @@ pub fn ev_is_match(r: &mut Rec, s: &Searcher, hay: &[u8], sp: (usize, usize), an
 }
 
 pub fn ev_iter(r: &mut Rec, s: &Searcher, hay: &[u8], sp: (usize, usize), an: bool) {
-    let (out, res) = outcome(guarded(|| {
+    let lim = s.item_limit(&mk_input(hay, sp.0, sp.1, an, false));
+    let (mut out, res) = outcome(guarded(|| {
         s.try_iter(mk_input(hay, sp.0, sp.1, an, false))
             .map(|v| v.iter().map(m2v).collect::<Vec<_>>())
     }));
+    if out == "ok" && res.as_array().map_or(0, |a| a.len()) > lim {
+        out = "runaway".to_string();
+    }
     r.put(json!(["iter", an, false, out, res, 0]));
 }
 
 pub fn ev_overlap_iter(r: &mut Rec, s: &Searcher, hay: &[u8], sp: (usize, usize)) {
-    let (out, res) = outcome(guarded(|| {
+    let lim = s.item_limit(&mk_input(hay, sp.0, sp.1, false, false));
+    let (mut out, res) = outcome(guarded(|| {
         s.try_overlapping_iter(mk_input(hay, sp.0, sp.1, false, false))
             .map(|v| v.iter().map(m2v).collect::<Vec<_>>())
     }));
+    if out == "ok" && res.as_array().map_or(0, |a| a.len()) > lim {
+        out = "runaway".to_string();
+    }
     r.put(json!(["overlap_iter", false, false, out, res, 0]));
 }
 
@@ -476,7 +507,26 @@ pub fn ev_work_overlap(r: &mut Rec, s: &Searcher, c: &Ctx, hay: &[u8], sp: (usiz
 pub fn work_cases(rg: &mut StdRng, which: usize, big: bool) -> (Pats, Vec<Vec<u8>>) {
     let n = if big { 4096 } else { 600 };
     let k = if big { 64 } else { 24 };
-    match which % 5 {
+    match which % 6 {
+        5 => {
+            // a rare byte far from the pattern start: the rare-byte prefilter's candidates lie
+            // up to `off` bytes BEFORE the byte it finds; haystacks in which those look-behind
+            // windows cover almost everything
+            let off = if big { 200 } else { 60 };
+            let pats: Pats = (0..5u8).map(|j| { let mut p = vec![b'a' + j; off]; p.push(b'Z'); p }).collect();
+            let mut h = vec![];
+            while h.len() + off + 1 < n {
+                h.extend(std::iter::repeat(b'x').take(off - 1 - (h.len() % 7)));
+                h.push(b'Z');
+            }
+            h.extend(std::iter::repeat(b'c').take(off));
+            h.push(b'Z');
+            let mut h2 = vec![];
+            while h2.len() + 8 < n {
+                h2.extend_from_slice(b"abxZcde");
+            }
+            (pats, vec![h, h2])
+        }
         0 => {
             // a^j b for j = 1..k, haystack a^n with rare b's
             let pats: Pats = (1..=k).map(|j| { let mut p = vec![b'a'; j]; p.push(b'b'); p }).collect();
@@ -869,18 +919,40 @@ pub fn run(out_prefix: &str, shards: usize, family: &str, seed: u64, scale: usiz
                 }
             }
             for i in 0..(30 * scale) {
-                let pats = gen::random_pats(&mut rg, 6, 6);
+                // half of the contexts are built to carry a prefilter (every variant, incl.
+                // packed/Teddy which needs spans longer than a vector)
+                let pats = if i % 2 == 0 { gen::random_pats(&mut rg, 6, 6) } else { prefilter_lists(&mut rg, i / 2) };
                 let mk = f.mks[rg.gen_range(0..f.mks.len())];
                 let mut c = Ctx::new(&pats, mk, REPRS_ALL[i % REPRS_ALL.len()]);
-                c.ci = rg.gen_range(0..3) == 0;
-                c.pre = rg.gen_bool(0.7);
+                c.ci = i % 2 == 0 && rg.gen_range(0..3) == 0;
+                c.pre = i % 2 == 1 || rg.gen_bool(0.7);
+                let maxlen = if i % 2 == 1 { 90 } else { 40 };
                 let hays: Vec<Vec<u8>> =
-                    (0..6).map(|_| gen::random_hay(&mut rg, &pats, c.ci, 40)).collect();
+                    (0..6).map(|_| gen::random_hay(&mut rg, &pats, c.ci, maxlen)).collect();
                 with_ctx(&mut out, &mut stats, &c, &mut |r, s| {
                     for h in &hays {
-                        for _ in 0..3 {
-                            let sp = gen::random_span(&mut rg, h.len());
+                        for k in 0..3 {
+                            let mut sp = gen::random_span(&mut rg, h.len());
+                            if k == 0 && h.len() >= 50 {
+                                // a long span that ends well before the haystack does
+                                sp = (rg.gen_range(0..8), h.len() - rg.gen_range(4..12));
+                            }
                             span_triple(r, s, &c, h, sp, &mut rg);
+                            // the same with a pattern straddling the span end (and one straddling
+                            // the start) in the ORIGINAL haystack and nothing else inside
+                            if sp.0 <= sp.1 && !pats.is_empty() {
+                                let p = &pats[rg.gen_range(0..pats.len())];
+                                if p.len() >= 2 && sp.1 >= 1 && sp.1 < h.len() {
+                                    let filler = *[b'_', b'~', 0x01].iter().find(|b| !pats.iter().any(|q| q.contains(b))).unwrap_or(&b'_');
+                                    let mut h2 = vec![filler; h.len()];
+                                    let kk = rg.gen_range(1..p.len());
+                                    for j in 0..p.len() {
+                                        let pos = sp.1 as isize - kk as isize + j as isize;
+                                        if pos >= 0 && (pos as usize) < h2.len() { h2[pos as usize] = p[j]; }
+                                    }
+                                    span_triple(r, s, &c, &h2, sp, &mut rg);
+                                }
+                            }
                         }
                     }
                 });
@@ -900,6 +972,32 @@ pub fn run(out_prefix: &str, shards: usize, family: &str, seed: u64, scale: usiz
                     c.ci = true;
                     with_ctx(&mut out, &mut stats, &c, &mut |r, s| {
                         for h in &hays {
+                            all_flavours(r, s, &c, f, h, (0, h.len()));
+                        }
+                    });
+                }
+            }
+            // case-insensitive searchers whose prefilter is a rare-byte / start-byte
+            // prefilter over letters written in either case
+            for i in 0..(18 * scale) {
+                let pats: Pats = prefilter_lists(&mut rg, [2usize, 3, 5, 1][i % 4])
+                    .into_iter()
+                    .map(|p| p.iter().map(|&b| if rg.gen_bool(0.3) && b.is_ascii_lowercase() { b.to_ascii_uppercase() } else { b }).collect())
+                    .collect();
+                let mk = f.mks[rg.gen_range(0..f.mks.len())];
+                for repr in ["nc", "top-auto", "dfa", "c"] {
+                    let mut c = Ctx::new(&pats, mk, repr);
+                    c.ci = true;
+                    c.pre = true;
+                    let hays: Vec<Vec<u8>> = (0..8).map(|_| {
+                        let mut h = gen::random_hay(&mut rg, &pats, true, 60);
+                        // all-lowercase and all-uppercase renderings as well
+                        match rg.gen_range(0..3) { 0 => h.make_ascii_lowercase(), 1 => h.make_ascii_uppercase(), _ => {} }
+                        h
+                    }).collect();
+                    with_ctx(&mut out, &mut stats, &c, &mut |r, s| {
+                        for h in &hays {
+                            ev_probe(r, s, h, (0, h.len()));
                             all_flavours(r, s, &c, f, h, (0, h.len()));
                         }
                     });
@@ -958,6 +1056,21 @@ pub fn run(out_prefix: &str, shards: usize, family: &str, seed: u64, scale: usiz
                             }
                             all_flavours(r, s, &c, f, h, sp);
                         }
+                        // a span that ends inside an occurrence, with nothing else in it
+                        for h in hays.iter().filter(|h| h.len() >= 40).take(3) {
+                            let p = &pats[0];
+                            if p.len() < 2 { continue; }
+                            let filler = *[b'_', b'~', 0x01].iter().find(|b| !pats.iter().any(|q| q.contains(b))).unwrap_or(&b'_');
+                            let mut h2 = vec![filler; h.len()];
+                            let end = h.len() - 5;
+                            let kk = 1 + (h.len() % (p.len() - 1));
+                            for j in 0..p.len() {
+                                let pos = end as isize - kk as isize + j as isize;
+                                if pos >= 0 && (pos as usize) < h2.len() { h2[pos as usize] = p[j]; }
+                            }
+                            ev_probe(r, s, &h2, (2, end));
+                            all_flavours(r, s, &c, f, &h2, (2, end));
+                        }
                     });
                 }
                 // top-level on/off differential
@@ -1000,7 +1113,7 @@ pub fn run(out_prefix: &str, shards: usize, family: &str, seed: u64, scale: usiz
                     }
                 }
             }
-            for i in 0..(10 * scale) {
+            for i in 0..(12 * scale) {
                 let (pats, hays) = work_cases(&mut rg, i, scale > 1);
                 for &mk in &f.mks {
                     for repr in ["nc", "c", "dfa", "top-auto"] {
